@@ -95,6 +95,7 @@ type Run struct {
 	poison      [][]int
 	seenFlags   map[string]bool
 	probing     bool
+	noShrink    bool // re-execution of an already minimised vector
 	// Shared carries per-process fixtures built by Init (shared with scratch runs).
 	Shared any
 }
@@ -182,7 +183,7 @@ func (r *Run) WantSample(x *explore.X) bool {
 // clause still fails) and the violation is recorded under the signature of the minimal case.
 func (r *Run) Fail(x *explore.X, clause, signature string, detail map[string]any) {
 	v := &Violation{Property: r.Check.ID, Clause: clause, Signature: signature, Detail: detail, Vector: x.Choices()}
-	if r.Check.ShrinkVectors && !r.probing && !r.Replay {
+	if r.Check.ShrinkVectors && !r.probing && !r.Replay && !r.noShrink {
 		if m := r.shrinkVector(v); m != nil {
 			m.Detail = cloneDetail(m.Detail)
 			m.Detail["found_at_vector"] = fmt.Sprint(v.Vector)
@@ -218,14 +219,32 @@ func (r *Run) probe(vec []int, clause string) (out *Violation) {
 func (r *Run) shrinkVector(v *Violation) *Violation {
 	vec := append([]int{}, v.Vector...)
 	var best *Violation
-	budget := 150
+	budget := 300
 	for changed := true; changed && budget > 0; {
 		changed = false
 		for i := len(vec) - 1; i >= 0 && budget > 0; i-- {
 			if i >= len(vec) || vec[i] == 0 {
 				continue
 			}
-			for _, alt := range lowerAlternatives(vec[i]) {
+			// 0 first, then the values chosen elsewhere (lets one member of a pair take the other's place), then the generic ladder
+			alts := []int{0}
+			for _, other := range vec {
+				if other > 0 && other < vec[i] {
+					alts = append(alts, other)
+				}
+			}
+			for _, a := range lowerAlternatives(vec[i]) {
+				dup := false
+				for _, b := range alts {
+					if a == b {
+						dup = true
+					}
+				}
+				if !dup {
+					alts = append(alts, a)
+				}
+			}
+			for _, alt := range alts {
 				cand := append([]int{}, vec...)
 				cand[i] = alt
 				for len(cand) > 0 && cand[len(cand)-1] == 0 {
@@ -706,6 +725,7 @@ func reexec(c *Check, tier string, seed int64, vec []int) (sigs []string, diverg
 		}
 	}()
 	r := newRun(c, tier, seed)
+	r.noShrink = true
 	if c.Init != nil {
 		c.Init(r)
 	}
